@@ -183,4 +183,30 @@ def headerFlags (fh : FileHeader) (fileLen : Nat) (lods : List (List Part)) : He
           | _, _ => true
     inBounds := secs.all fun s => s.1 + s.2 ≤ fileLen }
 
+/-! ## the class of the recorded finding `c07.writer-unsupported-layout`
+
+Canonical in every respect except that some declaration uses a `(usage, type)` pair the reader
+supports but the writer has no (inverse) encoder for: (UV, Half2), (UV, ByteFloat4),
+(BlendWeights, UnsignedShort4), (BlendIndices, UnsignedShort4), (Tangent, ByteFloat4) — the
+writer panics — and (BlendWeights, Byte4) — written with `round(x) as u8`. -/
+
+def canonicalMeshAny (m : AMesh) : Bool :=
+  m.decl.all (fun e => supported e.vertexUsage e.vertexType) && disjointElems m.decl &&
+  (List.zip (List.range m.streams.length) m.streams).all fun (si, s) =>
+    (chunks s.stride.toNat m.vertexCount.toNat s.data).all (canonicalRecord m.decl si)
+
+def CanonicalAny (m : AbstractModel) : Bool :=
+  isV5 m.version && m.terrainShadowMeshes.isEmpty && m.terrainShadowSubmeshes.isEmpty &&
+  (m.lods.drop m.lodCount.toNat).all (fun l => l.meshes.isEmpty) &&
+  (allMeshes m).all canonicalMeshAny && m.lods.all (fun l => startsOk 0 l.meshes) &&
+  f32Ok m.misc.radius && f32Ok m.misc.modelClipOutOfDistance && f32Ok m.misc.shadowClipOutOfDistance &&
+  m.lods.all (fun l => noNaNBlock (l.mid.take 8)) &&
+  m.elementIds.all (fun e => noNaNBlock (e.drop 8)) && noNaNBlock m.boundingBoxes &&
+  m.boneBoundingBoxes.all noNaNBlock
+
+/-- some mesh with vertices declares a pair outside `writable` -/
+def hasUnwritable (m : AbstractModel) : Bool :=
+  (allMeshes m).any fun mesh => mesh.vertexCount != 0 &&
+    mesh.decl.any fun e => !writable e.vertexUsage e.vertexType
+
 end Physis.Spec.Mdl
